@@ -1027,6 +1027,19 @@ class PX:
             self._remap[(it, ('e', cur[1], cur[2] - 1))] = ('e', U, -1)      # the element consumed last (a `st = iter.next()` cell)
             newcur[it] = ('e', U, 1)
         self._newcur = newcur
+        # what the path has already established about the element under the cursor (peeked, tested, not consumed: `if let Some(x) = peek().and_then(parse)`
+        # in a sequence of phases) stays true for the same element after the cut; it is part of the head node's identity
+        carry_shapes, carry_facts = {}, {}
+        for it in list(st.iters):
+            old, new = st.iters[it]['k'], newcur[it]
+            shp = st.shapes.get(('T', it, old))
+            if shp is not None:
+                carry_shapes[('T', it, new)] = shp
+            has = st.facts.get(('tag', ('has', it, old)))
+            if has is not None:
+                carry_facts[('tag', ('has', it, new))] = has
+            if shp is not None or has is not None:
+                keyparts.append(('cursor', self.short(it, 80), shp.describe() if shp is not None else None, has))
         for l in sorted(set(modified) | set(live)):
             if l not in env or l <= 0:
                 continue
@@ -1045,6 +1058,9 @@ class PX:
         st.shapes = {a: b for a, b in st.shapes.items() if self.is_persistent(a)}
         for atom, t in carried_tags:
             st.facts[('tag', atom)] = t
+        st.shapes.update(carry_shapes)
+        for a, b in carry_facts.items():
+            st.facts.setdefault(a, b)
         # persistent facts: only those about parameters / initial places
         pf = tuple(sorted((self.short(a, 300), str(b)) for a, b in st.facts.items() if self.is_persistent(a)))
         return (tuple(keyparts), pf)
